@@ -118,6 +118,13 @@ Definition dlinks : list dlink := d_eq p so ++ d_wc p so.
 Definition dgraph_ok : bool :=
   sincr (map (enc p lay) nodes) && forallb (fun ab => memd (fst ab) nodes && memd (snd ab) nodes) dlinks.
 
+(* every strand position sits where the layout says, inside the arrays, and is the node process_results reads *)
+Definition place_okb : bool :=
+  forallb (fun '(n, (_, l, _)) =>
+     (match afind (l_tstart lay) n with Some _ => true | None => false end) &&
+     forallb (fun o => Nat.eqb (enc p lay (spos p so n o)) (tstart_of lay n + o) && Nat.ltb (tstart_of lay n + o) (l_npos lay)) (seq 0 l))
+    (p_strands p).
+
 (* the loaded specification is well formed *)
 Definition item_okb (bound : nat) (it : sref) : bool :=
   match it with
@@ -135,10 +142,18 @@ Definition spec_okb : bool :=
   nodup_str (map fst (p_sups p)) && nodup_str (map fst (p_strands p)) && sups_okb (p_sups p) 0 &&
   forallb (fun '(_, (items, l, _)) => forallb (item_okb (List.length (p_sups p))) items && Nat.eqb l (refs_total p items)) (p_strands p) &&
   (if so then nodup_str (map fst (p_structs p)) &&
-              forallb (fun '(n, _) => match first_inst_in p (p_structs p) n with Some _ => true | None => false end) (p_strands p)
-   else true).
+              forallb (fun '(n, _) => match first_inst_in p (p_structs p) n with Some _ => true | None => false end) (p_strands p) &&
+              forallb (fun '(_, (names, _, len)) => Nat.eqb len (total p names)) (p_structs p)
+   else true) &&
+  nodup_str (map fst (p_bases p) ++ map fst (p_sups p)).
 End Tie.
 
+Lemma NoDup_app_l {X} (a b : list X) : NoDup (a ++ b) -> NoDup a.
+Proof. induction a as [|x a IH]; intros H; [constructor|]. inversion H; subst. constructor; [intros C; apply H2, in_or_app; left; exact C | apply IH; assumption]. Qed.
+Lemma NoDup_app_disj {X} (a b : list X) : NoDup (a ++ b) -> forall x, In x a -> In x b -> False.
+Proof. induction a as [|y a IH]; intros H x Ha Hb; [destruct Ha|]. inversion H; subst. destruct Ha as [->|Ha].
+  - apply H2, in_or_app. right. exact Hb.
+  - apply (IH H3 x Ha Hb). Qed.
 Lemma nodup_str_NoDup l : nodup_str l = true -> NoDup l.
 Proof. induction l as [|a l IH]; simpl; intros H; [constructor|]. apply andb_prop in H. destruct H as [H1 H2].
   constructor; [|apply IH, H2]. intros C. apply negb_true_iff in H1. assert (T : existsb (String.eqb a) l = true).
@@ -176,7 +191,8 @@ Proof. induction ss as [|[n0 [items0 l0]] ss IH]; intros j0 H j n items l Hj; [d
   - replace (j0 + S j) with (S j0 + j) by lia. apply (IH (S j0) H3 j n items l Hj). Qed.
 
 Theorem spec_okb_wf p so : spec_okb p so = true -> spec_wf p so.
-Proof. unfold spec_okb. intros H. apply andb_prop in H. destruct H as [H H5]. apply andb_prop in H. destruct H as [H H4]. apply andb_prop in H. destruct H as [H H3].
+Proof. unfold spec_okb. intros H. apply andb_prop in H. destruct H as [H H6]. apply nodup_str_NoDup in H6.
+  apply andb_prop in H. destruct H as [H H5]. apply andb_prop in H. destruct H as [H H4]. apply andb_prop in H. destruct H as [H H3].
   apply andb_prop in H. destruct H as [H1 H2]. apply nodup_str_NoDup in H1. apply nodup_str_NoDup in H2. constructor.
   - intros j n items l Hj. apply (sups_okb_spec p (p_sups p) 0 H3 j n items l Hj).
   - intros n items l d Hin. split; [apply afind_In; assumption|]. rewrite forallb_forall in H4. specialize (H4 _ Hin). cbn in H4.
@@ -184,9 +200,20 @@ Proof. unfold spec_okb. intros H. apply andb_prop in H. destruct H as [H H5]. ap
     rewrite forallb_forall in A. apply A, Hit.
   - intros j n items l Hj. unfold sup_index. assert (N : nth_error (map fst (p_sups p)) j = Some n) by (rewrite nth_error_map, Hj; reflexivity).
     apply (index_of_nth _ n H1 0 j N).
-  - intros SO sn v Hin. rewrite SO in H5. apply andb_prop in H5. destruct H5 as [A _]. apply nodup_str_NoDup in A. apply afind_In; assumption.
-  - intros SO n v Hin. rewrite SO in H5. apply andb_prop in H5. destruct H5 as [_ B]. rewrite forallb_forall in B. specialize (B _ Hin). cbn in B.
-    destruct (first_inst_in p (p_structs p) n); [discriminate | discriminate]. Qed.
+  - intros SO sn v Hin. rewrite SO in H5. apply andb_prop in H5. destruct H5 as [H5 _]. apply andb_prop in H5. destruct H5 as [A _].
+    apply nodup_str_NoDup in A. apply afind_In; assumption.
+  - intros SO n v Hin. rewrite SO in H5. apply andb_prop in H5. destruct H5 as [H5 _]. apply andb_prop in H5. destruct H5 as [_ B].
+    rewrite forallb_forall in B. specialize (B _ Hin). cbn in B.
+    destruct (first_inst_in p (p_structs p) n); [discriminate | discriminate].
+  - intros k n t Hk. unfold base_index. assert (N : nth_error (map fst (p_bases p)) k = Some n) by (rewrite nth_error_map, Hk; reflexivity).
+    apply NoDup_app_l in H6. apply (index_of_nth _ n H6 0 k N).
+  - intros n Hb. unfold base_index in Hb. unfold sup_index. destruct (index_of (map fst (p_sups p)) n 0) as [j|] eqn:E; [|reflexivity]. exfalso.
+    destruct (index_of (map fst (p_bases p)) n 0) as [k|] eqn:Eb; [|apply Hb; reflexivity].
+    destruct (index_of_spec (p_bases p) n 0 k Eb) as [t [_ [Nb _]]]. destruct (index_of_spec (p_sups p) n 0 j E) as [v [_ [Ns _]]].
+    apply nth_error_In in Nb. apply nth_error_In in Ns.
+    apply (NoDup_app_disj _ _ H6 n); [apply in_map_iff; exists (n, t); auto | apply in_map_iff; exists (n, v); auto].
+  - intros SO sn names s len Hin. rewrite SO in H5. apply andb_prop in H5. destruct H5 as [_ C]. rewrite forallb_forall in C.
+    specialize (C _ Hin). cbn in C. apply Nat.eqb_eq, C. Qed.
 
 (* ---- the link list of the declarative graph, encoded, is the graph's link list ---- *)
 Lemma mk_app q a b : mk q (a ++ b) = mk q a ++ mk q b. Proof. unfold mk. apply map_app. Qed.
